@@ -267,6 +267,25 @@ pub struct Built {
     pub base: Option<PathBuf>,
 }
 
+impl Built {
+    /// restart: construct every adapter anew over the same underlying filesystems
+    pub fn reopen(&mut self, spec: &Spec) -> Result<(), String> {
+        let old = std::mem::take(&mut self.nodes);
+        let mut b = Builder { ctl: self.ctl.clone(), nodes: vec![], base: self.base.clone(), reuse: Some(old) };
+        // (re-creating altroot / layer directories is the builder's doing, not an observer's)
+        let watch = self.ctl.watch_quiet.swap(false, Ordering::SeqCst);
+        let built = std::panic::catch_unwind(std::panic::AssertUnwindSafe(|| b.build(spec, None, None)));
+        self.ctl.watch_quiet.store(watch, Ordering::SeqCst);
+        let root = match built {
+            Ok(r) => r?,
+            Err(_) => return Err("LIBRARY-PANIC while re-creating the adapters of the stack over the same layers".to_string()),
+        };
+        self.nodes = b.nodes;
+        self.root = root;
+        Ok(())
+    }
+}
+
 impl Drop for Built {
     fn drop(&mut self) {
         if let Some(b) = &self.base {
@@ -397,6 +416,9 @@ struct Builder {
     ctl: Arc<Ctl>,
     nodes: Vec<NodeInfo>,
     base: Option<PathBuf>,
+    /// restart: the nodes of the previous incarnation - leaves are taken over (the same MemoryFS /
+    /// EmbeddedFS object, a new PhysicalFS over the same directory), adapters are built anew
+    reuse: Option<Vec<NodeInfo>>,
 }
 
 fn apply_pre(root: &VfsPath, pre: &[Pre]) -> Result<(), String> {
@@ -430,6 +452,15 @@ impl Builder {
         });
         let mut sub_dirs: Vec<String> = vec![];
         let (kind, root, phys_dir, alt_p) = match spec {
+            Spec::Mem { .. } | Spec::Emb if self.reuse.is_some() => {
+                let old = &self.reuse.as_ref().unwrap()[id as usize];
+                (old.kind, old.root.clone(), None, None)
+            }
+            Spec::Phys { .. } if self.reuse.is_some() => {
+                let dir = self.reuse.as_ref().unwrap()[id as usize].phys_dir.clone().ok_or("restart: physical node without directory")?;
+                let r = VfsPath::new(SimFS::new(PhysicalFS::new(&dir), id, self.ctl.clone()));
+                ("phys", r, Some(dir), None)
+            }
             Spec::Mem { pre } => {
                 let r = VfsPath::new(SimFS::new(MemoryFS::new(), id, self.ctl.clone()));
                 self.ctl.quiet(|| apply_pre(&r, pre))?;
@@ -495,7 +526,7 @@ impl Builder {
 
 pub fn build(spec: &Spec, order_seed: u64, permute: bool) -> Result<Built, String> {
     let ctl = Ctl::new(order_seed, permute);
-    let mut b = Builder { ctl: ctl.clone(), nodes: vec![], base: None };
+    let mut b = Builder { ctl: ctl.clone(), nodes: vec![], base: None, reuse: None };
     // building the stack and its initial contents goes through the public API too: a panic here
     // is a panic of the library on a legitimate call
     let built = std::panic::catch_unwind(std::panic::AssertUnwindSafe(|| b.build(spec, None, None)));
